@@ -6,4 +6,4 @@ Require Import ExtrOcamlBasic.
 From Lace Require Import Driver DriverDbg DriverEdit DriverCmd.
 Extraction Language OCaml.
 Set Extraction Optimize.
-Extraction "../ocaml/gen/lace_model.ml" run_c02 run_c03 run_asm run_obj run_objb run_write run_lc3 run_src run_dbg run_dbgt run_dbgs run_c20 run_c14 run_watch run_feat.
+Extraction "../ocaml/gen/lace_model.ml" run_c02 run_c03 run_asm run_obj run_objb run_write run_lc3 run_src run_dbg run_dbgt run_dbgs run_c20 run_c14 run_watch run_feat run_feat2.
